@@ -172,6 +172,35 @@ Theorem C02_h1_upgrade_delivery : forall meth m sizes reason fs u us rest,
 Proof. exact h1_upgrade_delivery. Qed.
 Print Assumptions C02_h1_upgrade_delivery.
 
+(* A response that was CUT is never delivered as a complete one: if [s ++ ext] is one complete
+   self-delimited response and the connection delivers only [s] (ext <> []), then whatever the
+   cut point - in the body, in the last-chunk line, between it and the trailer section, inside
+   a trailer line, inside the final CRLF - the reader does not report a clean end.  (The body
+   stream then fails, and by C02_failure_surfaces_in_every_mode every read mode reports it.) *)
+Theorem C02_cut_never_complete : forall meth bufsize s ext r b,
+  parse_response meth bufsize (s ++ ext) = Accepted r b ->
+  b_end b = BOk -> b_rest b = [] -> r_framing r <> FrUntilClose -> ext <> [] ->
+  forall r' b', parse_response meth bufsize s = Accepted r' b' -> b_end b' <> BOk.
+Proof. exact cut_never_complete. Qed.
+Print Assumptions C02_cut_never_complete.
+
+(* ... instantiated: EVERY proper prefix of a rendered chunked response with a trailer section *)
+Theorem C02_chunked_cut_detected : forall meth bufsize code reason fs tfs v cs l0 k,
+  (100 <= code <= 999)%Z -> reason_ok reason = true -> fields_ok fs ->
+  pragma_neutral (map field_of fs) ->
+  is_head meth = false -> body_allowed_for_status code = true ->
+  values_of K_TE (map field_of fs) = [v] -> bytes_eqb (to_lower v) (bs "chunked") = true ->
+  no_field K_CL (map field_of fs) ->
+  existsb bad_trailer_key (declared_keys (map field_of fs)) = false ->
+  chunks_ok bufsize 0 cs -> size_line_ok bufsize l0 0 ->
+  fields_ok tfs -> trailer_fits bufsize tfs ->
+  let wire := render_head code reason fs ++ H1Render.render_chunks cs ++ l0 ++ H1Render.CRLF ++
+              render_wfields tfs ++ H1Render.CRLF ++ [] in
+  k < length wire ->
+  forall r' b', parse_response meth bufsize (firstn k wire) = Accepted r' b' -> b_end b' <> BOk.
+Proof. exact chunked_cut_detected. Qed.
+Print Assumptions C02_chunked_cut_detected.
+
 (* ---------- HTTP/2, HTTP/3 ---------- *)
 
 (* h2_body_concat: EVERY partition into DATA frames, ANY padding, declared length or not *)
@@ -194,6 +223,24 @@ Theorem C02_h3_body_concat : forall parts rem,
   h3_read true rem (h3_events parts) = (concat parts, H3Clean).
 Proof. exact h3_body_concat. Qed.
 Print Assumptions C02_h3_body_concat.
+
+(* Once the response stream has ended (END_STREAM on DATA or on the trailer block), ANY sequence
+   of later peer events - RST_STREAM with any code (e.g. NO_ERROR to stop an upload), GOAWAY,
+   the end of the connection - in any order relative to the caller's reads leaves status,
+   header, trailers and the body the caller reads unchanged. *)
+Theorem C02_h2_after_end_irrelevant : forall is_head heads frames trailers after m sizes,
+  snd (h2_pipe (h2_events frames (match trailers with Some _ => true | None => false end))) <> H2Pending ->
+  h2_exchange_after is_head heads frames trailers after m sizes =
+  h2_exchange is_head heads frames trailers m sizes.
+Proof. exact h2_after_end_irrelevant. Qed.
+Print Assumptions C02_h2_after_end_irrelevant.
+
+Theorem C02_h2_stream_ended : forall fs last,
+  open_frames fs ->
+  (fd_end last = true -> snd (h2_pipe (h2_events (fs ++ [last]) false)) <> H2Pending) /\
+  snd (h2_pipe (h2_events fs true)) <> H2Pending.
+Proof. exact (fun fs last Ho => conj (ended_on_data fs last Ho) (ended_on_trailers fs Ho)). Qed.
+Print Assumptions C02_h2_stream_ended.
 
 (* lower-case names on the wire, the same canonical multimap for the caller *)
 Theorem C02_h2_header_collect : forall fs,
